@@ -102,7 +102,7 @@ class Reaching:
         out = set()
         nodes = self.cfg.nodes_of(stmt)
         if not nodes:
-            raise AnalysisError("statement at line %s not in CFG of %s" % (getattr(stmt, "lineno", "?"), self.fn.name))
+            raise AnalysisError("statement at line %s not in CFG of %s" % (getattr(stmt, "_srcline", getattr(stmt, "lineno", "?")), self.fn.name))
         for n in nodes:
             for v, d in self.IN.get(n, ()):
                 if v == name:
